@@ -394,6 +394,24 @@ func (r *Runner) txStep(st *prog.Step, tr *StepTrace) {
 				err = errFn // treated as "not committed"
 			}
 		})
+	case st.End == "manual":
+		// the manual API: Begin, calls, Commit, and Rollback if Commit fails
+		pan = Safe(func() {
+			var tx *nutsdb.Tx
+			tx, err = r.DB.Begin(writable)
+			if err != nil {
+				return
+			}
+			if err = body(tx); err != nil {
+				tx.Rollback()
+				return
+			}
+			if err = tx.Commit(); err != nil {
+				if rerr := tx.Rollback(); rerr != nil {
+					err = rerr
+				}
+			}
+		})
 	case writable:
 		pan = Safe(func() { err = r.DB.Update(body) })
 	default:
@@ -430,10 +448,10 @@ func (r *Runner) txStep(st *prog.Step, tr *StepTrace) {
 	}
 	if err != nil {
 		tr.Err = err.Error()
-		if err != errFn && st.End == "" && writable && !r.hasBig(st.Ops) && !r.faultInStep(st.ID) && !r.Opt.NoModel {
+		if err != errFn && (st.End == "" || st.End == "manual") && writable && !r.hasBig(st.Ops) && !r.faultInStep(st.ID) && !r.Opt.NoModel {
 			r.viol("commit-error", st.ID, -1, "Commit", "Update returned an unexpected error: %v", err)
 		}
-		if err != errFn && !writable && st.End == "" {
+		if err != errFn && !writable && (st.End == "" || st.End == "manual") {
 			r.viol("commit-error", st.ID, -1, "View", "View returned an unexpected error: %v", err)
 		}
 		return
